@@ -1243,7 +1243,7 @@ func (r *rpcPlanningContext) buildMessageForField(config buildFieldMessageConfig
 			continue
 		}
 
-		if message.Fields.Exists(r.operation.FieldNameString(fieldRef), "") {
+		if message.Fields.Exists(r.operation.FieldNameString(fieldRef), r.operation.FieldAliasString(fieldRef)) {
 			continue
 		}
 
